@@ -23,7 +23,7 @@ from pbmc.oracles import polyco
 pb = bind_repo()
 PID = "C08"
 
-SCHEMES = ["touch", "overlap", "gap0.5ms", "gap10min"]
+SCHEMES = ["touch", "overlap", "gap0.5ms", "gap10min", "gap60s", "gap2ms"]
 CONFIGS = {
     "quick": [  # (ncoeff, spelling, span, F0, RPHASE0)
         (12, "e", 90, "641.928232294317", "146750669817.214345"),
